@@ -36,6 +36,7 @@ class Universe:
         self.dead: set[int] = set()
         self.counter = {"o": 0, "b": 0, "r": 0, "v": 0, "e": 0}
         self.mappers: list[tuple[dict[Any, Any], dict[Any, Any]]] = []  # (value_mapper, block_mapper) pairs kept by the caller
+        self.builders: list[Any] = []  # Builder objects / insertion points kept by the caller across edits
 
     # -- naming ---------------------------------------------------------------
     def _name(self, obj: Any, kind: str) -> str:
